@@ -499,24 +499,24 @@ rc::Gen<config_t> gen_config(const int max_evals_hi, const int extreme_percent)
                         });
 }
 
-ucase_t assemble(const std::string& solver, const fspec_t& f, const config_t& cfg, const double radius,
-                 const std::vector<double>& direction, const int bundle_size)
+int function_size(const fspec_t& f)
 {
-    ucase_t c;
-    c.solver = solver;
-    c.f      = f;
     // the benchmark functions adjust the requested number of dimensions (powell, rosenbrock, elastic net)
-    auto n = f.n;
     if (f.benchmark != 0)
     {
         const auto function = make_function(f);
-        n                   = function ? static_cast<int>(function->size()) : 0;
+        return function ? static_cast<int>(function->size()) : 1;
     }
-    c.x0.resize(static_cast<size_t>(n));
-    for (size_t i = 0; i < c.x0.size(); ++i)
-    {
-        c.x0[i] = radius * direction[i % direction.size()];
-    }
+    return f.n;
+}
+
+ucase_t assemble(const std::string& solver, const fspec_t& f, const config_t& cfg, const std::vector<double>& x0,
+                 const int bundle_size)
+{
+    ucase_t c;
+    c.solver      = solver;
+    c.f           = f;
+    c.x0          = x0;
     c.epsilon     = cfg.epsilon;
     c.max_evals   = cfg.max_evals;
     c.bundle_size = bundle_size;
@@ -530,16 +530,19 @@ ucase_t assemble(const std::string& solver, const fspec_t& f, const config_t& cf
     return c;
 }
 
-rc::Gen<std::pair<double, std::vector<double>>> gen_start()
+rc::Gen<std::vector<double>> gen_start(const int n)
 {
-    // radius log-uniform in [1e-3, 10], direction in [-1,1]^n with at least one coordinate at +-1
-    return rc::gen::map(rc::gen::tuple(gen::logu(1e-3, 10.0), gen::vec(64, 1.0), gen::range<int>(0, 63), gen::chance(50)),
+    // x0 = radius * direction: radius log-uniform in [1e-3, 10], direction in [-1,1]^n with one coordinate at +-1
+    return rc::gen::map(rc::gen::tuple(gen::logu(1e-3, 10.0), gen::vec(static_cast<size_t>(n), 1.0), gen::range<int>(0, n - 1), gen::chance(50)),
                         [](const std::tuple<double, std::vector<double>, int, bool>& t)
                         {
-                            auto dir = std::get<1>(t);
-                            dir[static_cast<size_t>(std::get<2>(t))] = std::get<3>(t) ? 1.0 : -1.0;
-                            dir[0] = dir[0] == 0.0 ? 1.0 : dir[0];
-                            return std::make_pair(std::get<0>(t), dir);
+                            auto x0 = std::get<1>(t);
+                            x0[static_cast<size_t>(std::get<2>(t))] = std::get<3>(t) ? 1.0 : -1.0;
+                            for (auto& v : x0)
+                            {
+                                v *= std::get<0>(t);
+                            }
+                            return x0;
                         });
 }
 
@@ -566,13 +569,17 @@ rc::Gen<ucase_t> gen_ucase(const family_t family)
                                                       return p.first < 7 ? common[p.first] : p.second;
                                                   })
                                    : rc::gen::just(0));
-    return rc::gen::map(rc::gen::tuple(gen::range<int>(0, static_cast<int>(ids.size()) - 1), gen_fspec(max_dims, 55),
-                                       gen_config(evals_hi, 5), gen_start(), g_bundle),
-                        [ids](const std::tuple<int, fspec_t, config_t, std::pair<double, std::vector<double>>, int>& t)
-                        {
-                            return assemble(ids[static_cast<size_t>(std::get<0>(t))], std::get<1>(t), std::get<2>(t),
-                                            std::get<3>(t).first, std::get<3>(t).second, std::get<4>(t));
-                        });
+    return rc::gen::mapcat(
+        gen_fspec(max_dims, 55),
+        [=](const fspec_t& f) -> rc::Gen<ucase_t>
+        {
+            return rc::gen::map(rc::gen::tuple(gen::range<int>(0, static_cast<int>(ids.size()) - 1), gen_config(evals_hi, 5),
+                                               gen_start(function_size(f)), g_bundle),
+                                [ids, f](const std::tuple<int, config_t, std::vector<double>, int>& t) {
+                                    return assemble(ids[static_cast<size_t>(std::get<0>(t))], f, std::get<1>(t), std::get<2>(t),
+                                                    std::get<3>(t));
+                                });
+        });
 }
 
 rc::Gen<std::vector<double>> gen_constraint(const int n)
@@ -632,21 +639,25 @@ rc::Gen<ccase_t> gen_ccase()
 {
     const auto ids = constrained_ids();
     return rc::gen::mapcat(
-        rc::gen::tuple(gen::range<int>(0, static_cast<int>(ids.size()) - 1), gen_fspec(8, 30), gen_config(2000, 5), gen_start(),
-                       gen::range<int>(0, 4), gen::chance(70)),
-        [ids](const std::tuple<int, fspec_t, config_t, std::pair<double, std::vector<double>>, int, bool>& t) -> rc::Gen<ccase_t>
+        gen_fspec(8, 30),
+        [ids](const fspec_t& f) -> rc::Gen<ccase_t>
         {
-            const auto u = assemble(ids[static_cast<size_t>(std::get<0>(t))], std::get<1>(t), std::get<2>(t), std::get<3>(t).first,
-                                    std::get<3>(t).second, 0);
-            const auto n = std::max<int>(1, static_cast<int>(u.x0.size()));
-            return rc::gen::map(rc::gen::container<std::vector<std::vector<double>>>(static_cast<size_t>(std::get<4>(t)), gen_constraint(n)),
-                                [u](const std::vector<std::vector<double>>& cons)
-                                {
-                                    ccase_t c;
-                                    c.u    = u;
-                                    c.cons = cons;
-                                    return c;
-                                });
+            const auto n = function_size(f);
+            return rc::gen::mapcat(
+                gen::range<int>(0, 4),
+                [=](const int ncons) -> rc::Gen<ccase_t>
+                {
+                    return rc::gen::map(
+                        rc::gen::tuple(gen::range<int>(0, static_cast<int>(ids.size()) - 1), gen_config(2000, 5), gen_start(n),
+                                       rc::gen::container<std::vector<std::vector<double>>>(static_cast<size_t>(ncons), gen_constraint(n))),
+                        [ids, f](const std::tuple<int, config_t, std::vector<double>, std::vector<std::vector<double>>>& t)
+                        {
+                            ccase_t c;
+                            c.u    = assemble(ids[static_cast<size_t>(std::get<0>(t))], f, std::get<1>(t), std::get<2>(t), 0);
+                            c.cons = std::get<3>(t);
+                            return c;
+                        });
+                });
         });
 }
 
@@ -740,6 +751,11 @@ struct segment_log_t
     std::vector<int64_t> inner_reported; // fcalls+gcalls printed by the inner solver on that line
     int64_t              outer_lines{0};
     int64_t              inner_lines{0};
+    // curve search of the bundle solvers: the last trial line ("fx=..,fy=..") and the last summary line ("status=..")
+    bool        last_csearch_is_summary{false};
+    double      last_trial_fx{0.0}, last_trial_fy{0.0};
+    int64_t     trials_since_summary{0};
+    std::string last_summary_status;
 };
 
 verdict_t run_and_check(const ucase_t& c, const std::vector<std::vector<double>>* cons, ctx_t& ctx)
@@ -877,6 +893,33 @@ verdict_t run_and_check(const ucase_t& c, const std::vector<std::vector<double>>
     linebuf_t     buffer(
         [&](const std::string& line)
         {
+            if (bundle)
+            {
+                const auto cs = line.find("[csearch]:");
+                if (cs != std::string::npos)
+                {
+                    const auto fxp = line.find(",fx=", cs);
+                    const auto fyp = line.find(",fy=", cs);
+                    const auto stp = line.find(",status=", cs);
+                    if (stp != std::string::npos)
+                    {
+                        log.last_csearch_is_summary = true;
+                        log.last_summary_status     = line.substr(stp + 8);
+                    }
+                    else if (fxp != std::string::npos && fyp != std::string::npos)
+                    {
+                        if (log.last_csearch_is_summary)
+                        {
+                            log.trials_since_summary = 0;
+                        }
+                        log.last_csearch_is_summary = false;
+                        log.trials_since_summary++;
+                        log.last_trial_fx = std::strtod(line.c_str() + fxp + 4, nullptr);
+                        log.last_trial_fy = std::strtod(line.c_str() + fyp + 4, nullptr);
+                    }
+                    return;
+                }
+            }
             const auto pos = line.find("[solver-");
             if (pos == std::string::npos)
             {
@@ -1071,6 +1114,16 @@ verdict_t run_and_check(const ucase_t& c, const std::vector<std::vector<double>>
         const auto tol    = 5e-4 * (1.0 + std::fabs(f0));
         const auto excess = state.fx() - f0;
         ctx.maximum("increase/allowed", excess / tol);
+        if (excess > tol && c.solver == "rqb" && status == nano::solver_status::max_iters && function.evals() >= c.max_evals &&
+            log.last_csearch_is_summary && log.trials_since_summary >= 1 && log.last_trial_fy > log.last_trial_fx &&
+            (log.last_summary_status == "descent step" || log.last_summary_status == "cutting plane step"))
+        {
+            // mechanism of finding F11: the evaluation budget ran out inside csearch_t::search, the status of the
+            // previous search ("descent step") was left in place and RQB moved to the rejected trial point
+            return verdict_t::known("C02/value-increased/rqb/stale-csearch-status",
+                                    cat("f(x)-f(x0)=", excess, " allowed ", tol, " last trial fx=", log.last_trial_fx,
+                                        " fy=", log.last_trial_fy, " reported as '", log.last_summary_status, "'; ", info()));
+        }
         if (excess > 10.0 * tol)
         {
             return verdict_t::violation(where("value-increased"), cat("f(x)-f(x0)=", excess, " allowed ", tol, "; ", info()));
